@@ -72,6 +72,12 @@ def cases(tier, seed):
         L = maxiter + nf + 3
         script = [[float(rng.choice([2.0, 1.0, 0.5, 5.0, 0.01, 3.0, 3.0])) for _ in range(L)] for _ in range(procs)]
         cs.append(dict(kind='script', procs=procs, maxiter=maxiter, script=script, force=sorted(force), nlev=int(rng.integers(1, 3)), jac=bool(rng.random() < 0.5), _cost=0.6))
+    # several blocks with forced stops (force_done) raised at scripted (block, step, iteration) positions
+    for i in range(60 if tier == 'quick' else 1500):
+        procs, maxiter, nblocks = int(rng.integers(1, 4)), int(rng.integers(2, 5)), int(rng.integers(2, 4))
+        script = [[[float(rng.choice([2.0, 3.0, 0.5, 5.0, 3.0])) for _ in range(maxiter + 1)] for _ in range(procs)] for _ in range(nblocks)]
+        fd = {(int(rng.integers(0, nblocks - 1)), int(rng.integers(0, procs)), int(rng.integers(0, maxiter))) for _ in range(int(rng.integers(1, 3)))}
+        cs.append(dict(kind='script_blocks', procs=procs, maxiter=maxiter, nblocks=nblocks, script=script, force_done=sorted(fd), jac=bool(rng.random() < 0.5), _cost=0.6))
     return cs
 
 
@@ -309,10 +315,76 @@ def run_script(case, r):
     r.sample = dict(case={k: v for k, v in case.items() if not k.startswith('_')}, expected_stop=exp, observed=[got.get(p) for p in range(procs)])
 
 
+def run_script_blocks(case, r):
+    """several blocks on one controller: scripted residuals per (block, step, iteration) and forced stops (force_done) at scripted
+    positions; a forced stop belongs to the step and block it was raised for"""
+    from pySDC.helpers.stats_helper import get_sorted
+    from pySDC.implementations.controller_classes.controller_nonMPI import controller_nonMPI
+    from pySDC.implementations.problem_classes.TestEquation_0D import testequation0d
+    from pySDC.implementations.sweeper_classes.generic_implicit import generic_implicit
+
+    from vf.mon.probes import ForceDoneInjector, ResidualInjector
+    from vf.mon.tracehook import find_hook, make_trace_hook
+
+    procs, maxiter, nblocks = case['procs'], case['maxiter'], case['nblocks']
+    restol = 1e-3
+    scripts = case['script']  # [block][slot][iter] in units of restol
+    fd = {tuple(x) for x in case['force_done']}
+    r.key = f'blocks/{procs}/{maxiter}/{nblocks}/{case["jac"]}/{scripts}/{sorted(fd)}'
+    box = dict(block=-1, force_done_at=fd)
+
+    class BlockScript(dict):
+        def get(self, slot, default=None):
+            b = box['block']
+            return [x * restol for x in scripts[b][slot]] if 0 <= b < nblocks else default
+
+    box['script'] = BlockScript()
+    H = make_trace_hook()
+    dt = 0.05
+    desc = dict(problem_class=testequation0d, problem_params=dict(lambdas=np.array([-1.0, -0.2 + 1j]), u0=1.0), sweeper_class=generic_implicit, sweeper_params=dict(num_nodes=2, quad_type='RADAU-RIGHT', QI='LU'),
+                level_params=dict(dt=dt, restol=restol), step_params=dict(maxiter=maxiter), convergence_controllers={ResidualInjector: dict(box=box), ForceDoneInjector: dict(box=box)})
+    ctrl = controller_nonMPI(procs, dict(logger_level=50, dump_setup=False, hook_class=[H], mssdc_jac=case['jac']), desc)
+    orig_rb = ctrl.restart_block
+
+    def restart_block(active_slots, time, u0_):
+        box['block'] += 1
+        return orig_rb(active_slots, time, u0_)
+
+    ctrl.restart_block = restart_block
+    P = ctrl.MS[0].levels[0].prob
+    uend, stats = ctrl.run(P.u_exact(0.0), 0.0, (nblocks * procs - 0.5) * dt)
+    hook = find_hook(ctrl, H)
+    got = {}
+    for ev in hook.events:
+        if ev['cb'] == 'post_step':
+            k = int(round(ev['time'] / dt))
+            got[(k // procs, k % procs)] = ev['iter']
+    for b in range(nblocks):
+        stop_prev = 0
+        for p in range(procs):
+            forced = min([j for (bb, pp, j) in fd if bb == b and pp == p], default=None)
+            j = stop_prev
+            while not (j >= maxiter or scripts[b][p][j] <= 1.0 or (forced is not None and j >= forced)):
+                j += 1
+            stop_prev = j
+            if j == 0 and got.get((b, p)) == 0 and not (forced == 0):
+                r.check(False, 'early-stop-needs-a-sweep', f'{r.key}: block {b} slot {p} stopped at iteration 0 on a scripted residual <= restol without any sweep', mech='stop-at-iteration-0-without-any-sweep')
+                continue
+            r.check(got.get((b, p)) == j, 'scripted-stop-index', f'{r.key}: block {b} slot {p} stopped after {got.get((b, p))} iterations, the rule gives {j} (residuals/restol {scripts[b][p]}, maxiter {maxiter}, forced stops raised at {sorted(fd)})')
+    logged = [v for _, v in get_sorted(stats, type='niter', sortby='time')]
+    r.check(logged == [got.get((b, p)) for b in range(nblocks) for p in range(procs)], 'logged-niter', f'{r.key}: logged niter {logged} vs performed {[got.get((b, p)) for b in range(nblocks) for p in range(procs)]}')
+    r.count('forced_stops', len(set(box.get('forced_done', []))))
+    r.count('multi_block_scripts')
+    r.nontrivial = True
+    r.sample = dict(case={k: v for k, v in case.items() if not k.startswith('_')})
+
+
 def run_case(case):
     r = Result(case)
     if case['kind'] == 'run':
         run_run(case, r)
+    elif case['kind'] == 'script_blocks':
+        run_script_blocks(case, r)
     else:
         run_script(case, r)
     r.count('kind:' + case['kind'])
@@ -329,7 +401,7 @@ def finalize(agg):
     for need in ('post_sweep/L0', 'post_iteration/L0', 'post_step/L0', 'post_sweep/L1'):
         if need not in cbs:
             out.append(f'defect oracle never ran at {need}')
-    for k, why in (('forced_continuations', 'no forced continuation was injected'), ('scripts_running_past_the_budget', 'no script ran past the iteration budget')):
+    for k, why in (('forced_continuations', 'no forced continuation was injected'), ('forced_stops', 'no forced stop was injected in a multi-block script'), ('scripts_running_past_the_budget', 'no script ran past the iteration budget')):
         if c.get(k, 0) == 0:
             out.append(why)
     return out
